@@ -30,6 +30,7 @@ struct Conn {
     /// an ack-eliciting packet was sent since the last packet was received
     sent_since_rx: bool,
     remote_port: u16,
+    rx_seen: BTreeSet<(Space, u64)>,
 }
 
 pub struct C02 {
@@ -86,7 +87,7 @@ fn rejected_by_app(cx: &Ctx, flow: &FlowKey) -> bool {
     let f = if flow.dir == fwd_dir { Some(&plan.fwd) } else { plan.rev.as_ref() };
     match f {
         Some(f) => {
-            matches!(f.end, End::Reset { .. })
+            matches!(f.end, End::Reset { .. } | End::ResetAfter { .. })
                 || matches!(f.read, ReadMode::StopSending { .. } | ReadMode::RejectAfter { .. })
         }
         None => false,
@@ -190,6 +191,11 @@ impl Monitor for C02 {
 
     fn on_rx(&mut self, _cx: &mut Ctx, p: &Pkt) {
         let c = self.conns.entry((p.ep, p.conn)).or_default();
+        // only a packet processed for the first time restarts the idle timer (a replayed
+        // datagram authenticates, but it is a duplicate and must be ignored)
+        if !c.rx_seen.insert((p.space, p.pn)) {
+            return;
+        }
         c.idle_base = c.idle_base.max(p.t);
         c.sent_since_rx = false;
     }
